@@ -44,6 +44,7 @@ def run(chk):
                         if not cons:
                             raise AnalysisError('C04.R1', q_pc, f'no path consistent with {ln} cards in the trick')
                         for p in cons:
+                            chk.focus(p, pe)
                             if p.end[0] == 'raise':
                                 chk.require(False, 'C04.R1', w_pc, q_pc, f'play_card raises with {ln} cards: {p.describe()[-60:]}',
                                             'play_card does not raise', f'play_card raises with {ln} cards in the trick: {p.describe()[-80:]}')
@@ -175,6 +176,7 @@ def run(chk):
             pe = PartialEvaluator(f, P.mod, [m])
             cons = [p for p in ipaths if P.consistent(p, pe)]
             for p in cons:
+                chk.focus(p, pe)
                 if passed:
                     chk.require(p.end[0] == 'raise' and not p.writes(), 'C04.R4', w_i, q_i, 'passed-out contract in constructor',
                                 'a passed-out contract is refused', 'a passed-out contract is accepted by the play engine')
